@@ -13,7 +13,8 @@ from C01 import expected_K
 
 
 def check(run):
-    add_rules(run, ['GATE.form', 'GATE.dom', 'GATE.intrinsic', 'GATE.K'])
+    add_rules(run, ['GATE.form', 'GATE.dom', 'GATE.intrinsic', 'GATE.K', 'ACC.pair', 'ACC.guard', 'ACC.order',
+                    'ACC.exit', 'ACC.nocapture'])
     run.rule('GATE.sub', 'an unsigned subtraction on parameters (`window - 1`, `len - n`) before '
              'the driver call is dominated by a check that excludes underflow')
     for cfg in configs(run, extra_quick=('full',)):
@@ -28,13 +29,17 @@ def check(run):
             has_mp = any(b['name'] == 'min_periods' for p_ in k.fn.params for b in _pat_binds(p_))
             if has_mp:
                 acc.check_gate(run, m, expected_K(k.name))
+                # the gate reads the validity counter: it must be the number of non-null
+                # elements of the window (paired +1 / -1 under the same null test)
+                acc.check_acc(run, m, only_count=True)
             pre_subs(run, k)
         drivers.check_drivers(run, F, rules=('DRV.len', 'DRV.early', 'SEQ.len'))
     return run.finish(
         'other',
         'For every rolling entry point (36 in tea-rolling, 2 in tevec behind `fdiff`): the '
         'effective min_periods has the documented form, every non-null result is '
-        'control-dependent on count >= min_periods, count - j never underflows or divides by '
+        'control-dependent on count >= min_periods, the count itself is advanced and retired under '
+        'the same null test (ACC rules restricted to the counter), count - j never underflows or divides by '
         'zero inside the gate, variance/skew/kurt clamp to 2/3/4, parameter arithmetic before '
         'the driver call cannot underflow; drivers produce exactly len outputs. Whether a '
         'statistic is "mathematically defined" on a window is a value question and not decided.',
